@@ -11,7 +11,9 @@
    Theorems only; each is closed by a lemma of Proofs/Filter*.v. *)
 From Coq Require Import NArith List Bool Arith.
 From CL Require Import Base.Str Base.Res Regex.Rx Generated.FilterFacts Model.Filter Model.FilterSpec
-  Model.FilterCompare Proofs.FilterKeyProofs Proofs.FilterProofs Proofs.FilterCacheProofs Proofs.FilterCompareProofs.
+  Model.FilterCompare Proofs.FilterKeyProofs Proofs.FilterProofs Proofs.FilterCacheProofs Proofs.FilterCompareProofs
+  Model.Pattern Model.Matcher Model.FilterE2E Proofs.MatcherSpec Proofs.MatcherComplete
+  Proofs.MatcherRooted Proofs.FilterE2EProofs Proofs.FilterE2EMatch Proofs.FilterE2EExample.
 Import ListNotations.
 
 (* ---- keys ----------------------------------------------------------------- *)
@@ -246,3 +248,105 @@ Example C14_in_file_example :
   map o_details (c_obs r) = [[[107; 50]%N; [122]%N; [107; 50]%N]] /\
   map o_summary (c_obs r) = [(1, 2)].
 Proof. vm_compute. repeat split; reflexivity. Qed.
+
+(* ==== END TO END: rules that carry pattern texts ================================
+   Model/FilterE2E.v: the paths of a configuration are TEXTS; they are parsed by
+   the Pattern model (PatternParser), bound to the locale (Matcher.with_env) and
+   matched on the regex engine (Matcher.match_): the Matcher of C11/C12 takes the
+   place of the match tables.  [filter_res] is `_filter`/`filter` once more with
+   binding and matching that may RAISE, in the code's order of evaluation. *)
+
+(* Refinement: whenever every matcher of the project can be bound to the locale
+   and evaluated on the file ([def_at]), the raising pattern-level filter
+   returns Ok of the table-based cache-free filter, the table being what
+   binding and matching compute -- so every theorem above transfers. *)
+Theorem C14_e2e_refines_tables :
+  forall (matcher bmatcher locale file : Type) (loc_eqb : locale -> locale -> bool)
+         (rbind : matcher -> locale -> result bmatcher) (rmatch_b : bmatcher -> file -> result bool)
+         (mb : matcher -> locale -> file -> bool) (c : config matcher locale) loc f ent,
+  (forall M, In M (cfg_matchers matcher locale c) ->
+             def_at matcher bmatcher locale file rbind rmatch_b mb loc f M) ->
+  filter_res matcher bmatcher locale file loc_eqb rbind rmatch_b c loc f ent =
+  Ok (filter_pure matcher locale file loc_eqb mb c loc f ent).
+Proof. exact filter_res_refines. Qed.
+
+(* A rule path of the C11 grammar (rooted) never raises: binding and matching are
+   defined on every path. *)
+Theorem C14_e2e_grammar_defined : forall M loc path,
+  in_filter_grammar M loc -> e2e_defined M loc path.
+Proof. exact grammar_defined. Qed.
+
+(* What "the rule's pattern matches the path" means (C11 soundness): the match
+   dictionary is a valuation under which the bound pattern expands to the path
+   (up to the one final newline `$` lets through), with wildcard values of their
+   kinds ... *)
+Theorem C14_e2e_rule_path_sound : forall M loc path, e2e_matches M loc path = true ->
+  exists B d, e2e_bind M loc = Ok B /\ match_ B path = Ok (Some d) /\
+  (simple_rooted B ->
+   (exists p0, upto_final_newline path p0 /\
+               expand_pattern (sub_env d (m_env B)) false (m_pat B) = Ok p0) /\
+   kinds_ok (m_pat (unroot B)) d).
+Proof. exact e2e_matches_sound. Qed.
+
+(* ... and conversely (C11 completeness): the path assembled from one fitting
+   piece per node of the bound pattern, behind its root, matches. *)
+Theorem C14_e2e_rule_path_complete : forall M loc B d pieces,
+  e2e_bind M loc = Ok B -> simple_rooted B -> compiles (unroot B) ->
+  Forall var_not_star (p_nodes (m_pat (unroot B))) ->
+  Forall2 (piece_for (m_env B) d) (p_nodes (m_pat (unroot B))) pieces ->
+  e2e_matches M loc (concat pieces) = true.
+Proof. exact e2e_matches_complete. Qed.
+
+(* C14_end_to_end.  A project given by pattern texts (with the environ and root
+   its Matchers are created with), all of whose l10n paths and rule paths, bound
+   to the locale, are in the C11 grammar (rooted): for every file path and key,
+   `filter` does not raise and returns the documented verdict, where "matches"
+   is matching of the Matcher model: ignore when the locale or the path is not
+   covered or an excluded configuration covers the file; else the most severe,
+   over the configuration and its includes, of "action of the LAST rule whose
+   pattern matches the path and whose key matches, else error".  (D10 hypothesis
+   as in C14_refines_spec.) *)
+Theorem C14_end_to_end : forall compile_re t raw loc path ent,
+  t_compile t = Ok raw ->
+  (exists cfg, build matcher str compile_re raw = Ok cfg) ->
+  project_in_grammar raw loc ->
+  excludes_error_only matcher str str str_eqb e2e_matches compile_re raw loc path = true ->
+  e2e_filter compile_re t loc path ent =
+  Ok (spec matcher str str str_eqb e2e_matches compile_re raw loc path ent).
+Proof. exact end_to_end. Qed.
+
+(* the same for one configuration without includes and excludes, clauses spelled out *)
+Theorem C14_end_to_end_flat : forall compile_re t locs ps rs loc path ent,
+  t_compile t = Ok (mkrawc _ _ locs ps rs [] []) ->
+  (exists cfg, build matcher str compile_re (mkrawc _ _ locs ps rs [] []) = Ok cfg) ->
+  project_in_grammar (mkrawc _ _ locs ps rs [] []) loc ->
+  e2e_filter compile_re t loc path ent =
+  Ok (if existsb (str_eqb loc) (raw_locales _ _ (mkrawc _ _ locs ps rs [] [])) &&
+         existsb (fun p => path_covers matcher str str str_eqb e2e_matches p loc path) ps
+      then match last_such (fun r => rule_applies matcher str str e2e_matches compile_re r loc path ent) rs with
+           | Some r => rr_action _ r
+           | None => AError
+           end
+      else AIgnore).
+Proof. exact end_to_end_flat. Qed.
+
+(* By construction, from the completeness of matching (no run of the engine on
+   the path): root /r, l = l10n/, locales [de], l10n path {l}**, rules
+   `{l}**` -> ignore then `{l}browser/**/*.ftl` -> warning.  EVERY path
+   /r/l10n/browser/<b>/<x>.ftl -- the expansion of the valuation ** = b/, * = x --
+   gets `warning`: the last matching rule wins over the earlier `ignore`. *)
+Example C14_end_to_end_example : forall b x,
+  b <> [] -> has_char nl b = false -> has_char c_slash x = false -> has_char nl x = false ->
+  e2e_filter x_no_re x_config x_de (x_path b x) None = Ok AWarning.
+Proof. exact end_to_end_example. Qed.
+
+Example C14_end_to_end_example_premises :
+  t_compile x_config = Ok x_raw /\ project_in_grammar x_raw x_de /\
+  (* a path outside browser/ only meets the first rule *)
+  e2e_filter x_no_re x_config x_de
+    (of_ascii [47;114;47;108;49;48;110;47;116;111;111;108;107;105;116;47;97;46;102;116;108]) None = Ok AIgnore /\
+  (* an instance of the family, evaluated: /r/l10n/browser/a/b/c.ftl *)
+  e2e_filter x_no_re x_config x_de (x_path (of_ascii [97;47;98]) (of_ascii [99])) None = Ok AWarning.
+Proof.
+  split; [exact x_compile|]. split; [exact x_in_grammar|]. split; vm_compute; reflexivity.
+Qed.
